@@ -2,5 +2,7 @@
 (* Small helpers shared by every module. *)
 EXTENDS Naturals, Sequences, FiniteSets
 MinOf(S) == CHOOSE m \in S : \A k \in S : m <= k
+RECURSIVE SetSeq(_)
+SetSeq(S) == IF S = {} THEN <<>> ELSE LET x == CHOOSE y \in S : TRUE IN <<x>> \o SetSeq(S \ {x})
 MaxOf(S) == CHOOSE m \in S : \A k \in S : m >= k
 =============================================================================
